@@ -69,6 +69,16 @@ def callgraph_layout(second_call=False):
     }
 
 
+def two_entries_layout():
+    """one function over three blocks with two entry blocks (b0 and b2)"""
+    spec = text_layout("o", annots=False)
+    blocks = spec["sections"][0]["blocks"]
+    for b in blocks:
+        b["func"] = "F"
+    blocks[2]["entry"] = True
+    return spec
+
+
 def mixed_layout():
     """code, data in the middle of .text, code; plus a .data section"""
     return {
@@ -171,6 +181,15 @@ def pair_mods():
     out.append([dele("b0", 0, 2)])
     out.append([ins("b2", 2, "mov")])
     out.append([ins("b0", 0, "label"), dele("b0", 0, 1)])
+    # a patch with symbolic operands lands in a tail piece that no longer starts at offset 0 of its byte interval
+    out.append([ins("b1", 1, "call:s2"), ins("b1", 2, "call:ext1")])
+    out.append([ins("b1", 0, "jmp:s2"), ins("b1", 3, "lea:s0")])
+    out.append([ins("b1", 1, "icall"), ins("b1", 2, "ripimm:s2"), ins("b1", 3, "lea:s1")])
+    # declining patches (get_asm returns nothing) followed by later requests in the same block
+    out.append([rep("b1", 0, 1, "decline"), ins("b1", 2, "mov")])
+    out.append([rep("b1", 0, 2, "decline"), dele("b1", 2, 3)])
+    out.append([ins("b1", 1, "decline"), ins("b1", 1, "mov"), rep("b1", 2, 3, "decline")])
+    out.append([rep("b1", 1, 2, "decline"), rep("b1", 2, 3, "label")])
     # a later patch names the label of a block that an earlier modification deleted, split or joined
     out.append([dele("b1", 0, 3), ins("b2", 1, "jmp:s1")])
     out.append([dele("b1", 0, 3), ins("b2", 1, "lea:s1")])
@@ -253,7 +272,8 @@ def shapes(tier):
                      [dele("b0", 0, 2, proxy=True), dele("b1", 0, 2, proxy=True), dele("b1r", 0, 2, proxy=True)], [ins("b1", 1, "call:s2")],
                      [ins("b0", 0, "call:s2")], [rep("b0", 1, 2, "call:s2")], [dele("b3", 0, 2)], [dele("b2", 0, 2)],
                      [ins("b3", 1, "call:s2")], [ins("b1", 0, "call:ext1")], [dele("b1", 1, 2)], [ins("b4", 1, "ret")],
-                     [dele("b0", 1, 2), ins("b1", 1, "call:s2")], [ins("b0", 2, "mov")]):
+                     [dele("b0", 1, 2), ins("b1", 1, "call:s2")], [ins("b0", 2, "mov")],
+                     [ins("b2", 1, "ret")], [ins("b2", 0, "ret"), ins("b1", 1, "call:s2")]):
             spec = callgraph_layout(second)
             spec["mods"] = copy.deepcopy(mods)
             out.append(("callgraph%d/%s" % (2 if second else 1, mods_name(mods)), spec))
@@ -264,6 +284,18 @@ def shapes(tier):
     spec = text_layout("jcc:s0")
     spec["mods"] = [rep("b1", 0, 3, "selfloop")]
     out.append(("text/jcc:s0/%s" % mods_name(spec["mods"]), spec))
+    for mods in ([dele("b0", 0, 2)], [dele("b2", 0, 2)], [dele("b0", 0, 2), dele("b1", 0, 3)], [dele("b0", 0, 1)],
+                 [ins("b0", 0, "mov"), dele("b0", 0, 2)]):
+        spec = two_entries_layout()
+        spec["mods"] = copy.deepcopy(mods)
+        out.append(("two-entries/%s" % mods_name(mods), spec))
+    for at in (0, 1, 3):
+        spec = text_layout("jcc:s0")
+        spec["mods"] = [ins("b1", at, "alias_data")]
+        out.append(("text/jcc:s0/%s" % mods_name(spec["mods"]), spec))
+    spec = mixed_layout()
+    spec["mods"] = [ins("d0", 1, "alias_data")]
+    out.append(("mixed/%s" % mods_name(spec["mods"]), spec))
     for p in ("ripimm:s2", "ripimm4:s0"):
         spec = text_layout("jcc:s0")
         spec["mods"] = [ins("b1", 1, p)]
@@ -288,6 +320,17 @@ def cfi_layout(kind="one"):
     one:  a single procedure over b0..b2 with state changes inside b1
     two:  procedure P over b0+b1 (ends at the end of b1), procedure Q over b2
     data: procedure over b0, data block b1, lone procedure over b2"""
+    if kind == "same-offset":
+        # procedure P ends and procedure Q starts at one and the same offset (inside b1, and at offset 0 of b2 for R)
+        spec = text_layout("jcc:s0", annots=False)
+        spec["cfi"] = [
+            {"blk": "b0", "at": 0, "dirs": [(".cfi_startproc", [])]},
+            {"blk": "b1", "at": 2, "dirs": [(".cfi_def_cfa_offset", [16]), (".cfi_endproc", []), (".cfi_startproc", []),
+                                            (".cfi_personality", [0], "ext1"), (".cfi_def_cfa_offset", [8])]},
+            {"blk": "b2", "at": 0, "dirs": [(".cfi_endproc", []), (".cfi_startproc", []), (".cfi_def_cfa_offset", [24])]},
+            {"blk": "b2", "at": 2, "dirs": [(".cfi_endproc", [])]},
+        ]
+        return spec
     if kind == "split":
         spec = mixed_layout()
         spec["annots"] = []
@@ -350,7 +393,7 @@ def cfi_shapes(tier):
                   [ins("b1", 0, "mov"), ins("b2", 0, "cfi:.cfi_undefined 3")],
                   [dele("b1", 0, 2), ins("b1", 3, "cfi:.cfi_undefined 3")],
                   [dele("b0", 0, 2), dele("b1", 0, 3), dele("b2", 0, 2)]]
-    for kind in ("one", "two"):
+    for kind in ("one", "two", "same-offset"):
         for mods in text_mods:
             spec = cfi_layout(kind)
             spec["mods"] = copy.deepcopy(mods)
